@@ -1,4 +1,4 @@
-(* Side conditions on the schema regenerated from the source (closed by computation). *)
+(* Side conditions on the schema regenerated from the source (closed by computation on the generated table). *)
 From Coq Require Import List NArith ZArith Bool QArith.
 From PV Require Import Model.ConfigDecode Gen.ConfigSchemaGen.
 Import ListNotations.
@@ -12,4 +12,147 @@ Fixpoint entries_nodup (l : list entry) : bool :=
   end.
 
 Lemma gen_registry_nodup : entries_nodup gen_registry = true.
+Proof. vm_compute. reflexivity. Qed.
+
+(* every component config is a struct: no component takes a catch-all map as its whole config, so every plugin
+   node of a written tree is a strict node *)
+Definition confs_are_structs (l : list entry) : bool :=
+  forallb (fun e => match e_conf e with Some (cs, _) => is_struct_schema cs | None => true end) l.
+
+Lemma gen_confs_are_structs : confs_are_structs gen_registry = true /\ is_struct_schema gen_root_schema = true.
+Proof. vm_compute. split; reflexivity. Qed.
+
+(* no schema node is outside the model (unsupported Go kinds, opaque scalars) *)
+Fixpoint supported (s : schema) : bool :=
+  match s with
+  | SStruct _ fs => (fix go (l : list fld) : bool := match l with [] => true | f :: r => supported (f_schema f) && go r end) fs
+  | SMap e | SSlice e => supported e
+  | SScalar KOpaque => false
+  | SUnsupported => false
+  | _ => true
+  end.
+
+Lemma gen_all_supported :
+  forallb (fun e => match e_conf e with Some (cs, _) => supported cs | None => true end) gen_registry = true
+  /\ supported gen_root_schema = true.
+Proof. vm_compute. split; reflexivity. Qed.
+
+(* the two shorthand hooks land on what the model assumes: the composite schedule has a `nested` list of
+   schedules, the file sink has a scalar `path` *)
+Definition composite_ok (l : list entry) : bool :=
+  match lookup_entry l i_schedule s_composite with
+  | Some e =>
+      match e_conf e with
+      | Some (cs, _) =>
+          match find_field s_nested (flat_fields cs) with
+          | Some f => match f_schema f with SSlice (SPlugin i 0) => str_eqb i i_schedule | _ => false end
+          | None => false
+          end
+      | None => false
+      end
+  | None => false
+  end.
+
+Definition file_sink_ok (l : list entry) : bool :=
+  match lookup_entry l i_datasink s_file with
+  | Some e =>
+      match e_conf e with
+      | Some (cs, _) =>
+          match find_field s_path (flat_fields cs) with
+          | Some f => match f_schema f with SScalar KString => true | _ => false end
+          | None => false
+          end
+      | None => false
+      end
+  | None => false
+  end.
+
+Lemma gen_shorthands_ok : composite_ok gen_registry = true /\ file_sink_ok gen_registry = true.
+Proof. vm_compute. split; reflexivity. Qed.
+
+(* the pool has the documented keys, and discard_overflow defaults to false in the decoder itself
+   (the CLI pre-pass is what turns the absent key into true) *)
+Definition pool_schema : option schema :=
+  match find_field s_pools (flat_fields gen_root_schema) with
+  | Some f => match f_schema f with SSlice e => Some e | _ => None end
+  | None => None
+  end.
+
+Definition str_of_keys (s : schema) : list str := map f_key (flat_fields s).
+
+Lemma gen_pool_keys :
+  match pool_schema with
+  | Some ps =>
+      forallb (fun k => accepted_b k (str_of_keys ps))
+        [ [97;109;109;111] (* ammo *); [114;101;115;117;108;116] (* result *); [103;117;110] (* gun *);
+          [114;112;115] (* rps *); [115;116;97;114;116;117;112] (* startup *); s_discard;
+          [114;112;115;45;112;101;114;45;105;110;115;116;97;110;99;101] (* rps-per-instance *); [105;100] (* id *) ]
+      && match nth_field s_discard (flat_fields ps) (struct_cur ps (zero_of ps)) with
+         | Some (f, CBool false) => match f_schema f with SScalar KBool => true | _ => false end
+         | _ => false
+         end
+  | None => false
+  end = true.
+Proof. vm_compute. reflexivity. Qed.
+
+(* ---------------------------------------------------------------- the documented constraints
+   Every validate tag of every built-in component config and of the CLI config, as it stands in the source the
+   properties were written against.  The translator regenerates the left-hand side from the tags of the current
+   tree; dropping or weakening a constraint no longer matches this table. *)
+From Coq Require Import String Ascii.
+
+Fixpoint to_string (s : str) : string :=
+  match s with [] => EmptyString | c :: r => String (ascii_of_N c) (to_string r) end.
+
+Fixpoint tagged (prefix : string) (s : schema) : list (string * list vtag) :=
+  match s with
+  | SStruct _ fs =>
+      (fix go (l : list fld) : list (string * list vtag) :=
+         match l with
+         | [] => []
+         | f :: r =>
+             let name := (prefix ++ to_string (f_key f))%string in
+             ((match f_tags f with [] => [] | t => if f_squash f then [] else [(name, t)] end)
+              ++ tagged (if f_squash f then prefix else (name ++ ".")%string) (f_schema f)) ++ go r
+         end) fs
+  | SSlice e | SMap e => tagged prefix e
+  | _ => []
+  end.
+
+Definition constraint_table : list (string * string * list (string * list vtag)) :=
+  ("cli"%string, "config"%string, tagged "" gen_root_schema) ::
+  flat_map (fun e => match e_conf e with
+                     | Some (cs, _) => match tagged "" cs with [] => [] | t => [(to_string (e_iface e), to_string (e_name e), t)] end
+                     | None => [] end) gen_registry.
+
+Local Open Scope string_scope.
+Lemma gen_constraints_documented : constraint_table =
+  ("cli"%string, "config"%string, ("pools"%string, TRequired :: TDive :: nil)
+  :: ("pools.ammo"%string, TRequired :: nil)
+  :: ("pools.result"%string, TRequired :: nil)
+  :: ("pools.gun"%string, TRequired :: nil)
+  :: ("pools.rps"%string, TRequired :: nil)
+  :: ("pools.startup"%string, TRequired :: nil)
+  :: ("monitoring.Expvar.port"%string, TRequired :: nil) :: nil)
+  :: ("core.Aggregator"%string, "json"%string, ("sink"%string, TRequired :: nil)
+  :: ("sample-queue-size"%string, TMin 1 :: nil) :: nil)
+  :: ("core.Aggregator"%string, "jsonlines"%string, ("sink"%string, TRequired :: nil)
+  :: ("sample-queue-size"%string, TMin 1 :: nil) :: nil)
+  :: ("core.DataSink"%string, "file"%string, ("path"%string, TRequired :: nil) :: nil)
+  :: ("core.DataSource"%string, "file"%string, ("path"%string, TRequired :: nil) :: nil)
+  :: ("core.DataSource"%string, "inline"%string, ("Data"%string, TRequired :: nil) :: nil)
+  :: ("core.Gun"%string, "connect"%string, ("Target"%string, TEndpoint :: TRequired :: nil)
+  :: ("auto-tag.uri-elements"%string, TMin 1 :: nil) :: nil)
+  :: ("core.Gun"%string, "grpc"%string, ("Target"%string, TRequired :: nil) :: nil)
+  :: ("core.Gun"%string, "grpc/scenario"%string, ("Target"%string, TRequired :: nil) :: nil)
+  :: ("core.Gun"%string, "http"%string, ("Target"%string, TEndpoint :: TRequired :: nil)
+  :: ("auto-tag.uri-elements"%string, TMin 1 :: nil) :: nil)
+  :: ("core.Gun"%string, "http/scenario"%string, ("Target"%string, TEndpoint :: TRequired :: nil)
+  :: ("auto-tag.uri-elements"%string, TMin 1 :: nil) :: nil)
+  :: ("core.Gun"%string, "http2"%string, ("Target"%string, TEndpoint :: TRequired :: nil)
+  :: ("auto-tag.uri-elements"%string, TMin 1 :: nil) :: nil)
+  :: ("core.Gun"%string, "http2/scenario"%string, ("Target"%string, TEndpoint :: TRequired :: nil)
+  :: ("auto-tag.uri-elements"%string, TMin 1 :: nil) :: nil)
+  :: ("core.Provider"%string, "grpc/json"%string, ("Limit"%string, TMin 0 :: nil)
+  :: ("Passes"%string, TMin 0 :: nil) :: nil) :: ( "core.Provider"%string, "json"%string, ( "ammo-queue-size"%string, TMin 1 :: nil) :: ( "source"%string, TRequired :: nil) :: ( "Limit"%string, TMin 0 :: nil) :: ( "Passes"%string, TMin 0 :: nil) :: nil) :: ( "core.Schedule"%string, "const"%string, ( "Ops"%string, TMin 0 :: nil) :: ( "Duration"%string, TMinTime 1000000 :: nil) :: nil) :: ( "core.Schedule"%string, "instance_step"%string, ( "From"%string, TMin 0 :: nil) :: ( "To"%string, TMin 0 :: nil) :: ( "Step"%string, TMin 1 :: nil) :: ( "StepDuration"%string, TMinTime 1000000 :: nil) :: nil) :: ( "core.Schedule"%string, "line"%string, ( "From"%string, TMin 0 :: nil) :: ( "To"%string, TMin 0 :: nil) :: ( "Duration"%string, TMinTime 1000000 :: nil) :: nil) :: ( "core.Schedule"%string, "once"%string, ( "Times"%string, TMin 1 :: nil) :: nil) :: ( "core.Schedule"%string, "step"%string, ( "From"%string, TMin 0 :: nil) :: ( "To"%string, TMin 0 :: nil) :: ( "Step"%string, TMin 1 :: nil) :: ( "Duration"%string, TMinTime 1000000 :: nil) :: nil) :: ( "core.Schedule"%string, "unlimited"%string, ( "Duration"%string, TMinTime 1000000 :: nil) :: nil) :: nil.
 Proof. vm_compute. reflexivity. Qed.
